@@ -3,6 +3,11 @@ import hashlib, json, os, re, shutil, subprocess, sys, time
 
 ROOT = os.path.dirname(os.path.dirname(os.path.abspath(__file__)))
 REPO = "/repo"
+# Self-test only (tools/matrix.py): check a scratch copy of the repository instead of /repo, so that seeded
+# changes can be tried in parallel without touching /repo. Evidence of such runs goes to the work area.
+ALT_REPO = os.environ.get("VERIF_REPO") or None
+if ALT_REPO:
+    REPO = ALT_REPO
 SPEC = os.path.join(ROOT, "spec")
 NCPU = os.cpu_count() or 4
 
@@ -63,6 +68,14 @@ class Ctx:
             env["GOTOOLCHAIN"] = "local"
         cmd.append("./cmd/vh")
         harness = os.path.join(ROOT, "harness")
+        if ALT_REPO:
+            alt = os.path.join(self.work, "harness")
+            if not os.path.isdir(alt):
+                shutil.copytree(harness, alt)
+                gm = os.path.join(alt, "go.mod")
+                txt = open(gm).read().replace("=> /repo", "=> " + ALT_REPO)
+                open(gm, "w").write(txt)
+            harness = alt
         shutil.copy(os.path.join(REPO, "go.sum"), os.path.join(harness, "go.sum"))
         p = subprocess.run(cmd, cwd=harness, env=env, capture_output=True, text=True)
         if p.returncode != 0:
@@ -222,6 +235,9 @@ def conclude(ctx, res):
     if res.known:
         ev["coverage"]["known_findings_seen"] = res.known
     path = os.path.join(ROOT, "evidence", f"{ctx.prop}.json")
+    if ALT_REPO:
+        os.makedirs(os.path.join(ROOT, ".work", "alt-evidence"), exist_ok=True)
+        path = os.path.join(ROOT, ".work", "alt-evidence", f"{ctx.prop}-{os.getpid()}.json")
     tmp = path + ".tmp"
     json.dump(ev, open(tmp, "w"), indent=1, sort_keys=True, default=str)
     os.replace(tmp, path)
